@@ -410,6 +410,7 @@ func (f *Footer) Close() error {
 func (f *Footer) AddRef() {
 	f.m.Lock()
 	f.refs++
+	verifRef("Footer", f, f.refs)
 	f.m.Unlock()
 }
 
@@ -417,6 +418,7 @@ func (f *Footer) AddRef() {
 func (f *Footer) DecRef() {
 	f.m.Lock()
 	f.refs--
+	verifRef("Footer", f, f.refs)
 	if f.refs <= 0 {
 		f.SegmentLocs.DecRef()
 		f.SegmentLocs = nil
@@ -445,6 +447,7 @@ func (f *Footer) segmentLocs() (SegmentLocs, *segmentStack) {
 	f.m.Lock()
 
 	f.refs++
+	verifRef("Footer", f, f.refs)
 
 	slocs, ss := f.SegmentLocs, f.ss
 
